@@ -161,6 +161,17 @@ class C02(C01):
                             "silent": True, "subset": True})
                 continue
             if rng.random() < 0.06:
+                # chains of one operator over non-dyadic floats: every intermediate rounding matters, so any
+                # re-association or different summation method shows
+                lits = ["0.1", "0.2", "0.3", "0.7", "1e16", "1.0", "-1e16", "1e-16", "-0.0", "3", "0.1", "2.675", "1e308", "0.0"]
+                op = rng.choice([" + ", " + ", " * ", " - ", " / "])
+                e = op.join(rng.choice(lits) for _ in range(rng.randint(3, 7)))
+                if rng.random() < 0.3:
+                    e = f"({e}) == {rng.choice(['0.6', '0.6000000000000001', '0.0', '1.0'])}"
+                out.append({"expr": e, "pathway": rng.choice([None, "math", "logic"]), "tools": [], "allowed": None,
+                            "silent": True, "subset": True})
+                continue
+            if rng.random() < 0.06:
                 # arguments that compare equal but are not the same value: 5 / 5.0 / True+4, 0.0 / -0.0 (in both orders,
                 # consecutively, so that any result carried from one evaluation to the next shows)
                 f, a, b = rng.choice([("factorial", "5", "5.0"), ("gcd", "12, 8", "12.0, 8"), ("atan2", "0.0, -1", "-0.0, -1"),
@@ -261,7 +272,61 @@ class C02(C01):
         return None
 
     def extra_checks(self):
-        return None
+        """Registered tools are called with exactly the arguments the expression writes: positional and keyword
+        arguments (the property's 'never silently drops part of the expression')."""
+        from operon_ai.organelles.mitochondria import Mitochondria
+        n = 0
+        seen = []
+
+        def scale(x, factor=1, offset=0):
+            seen.append(("scale", x, factor, offset))
+            return x * factor + offset
+
+        def strict(x, factor=1):
+            seen.append(("strict", x, factor))
+            return x * factor
+
+        schemas = [None, {"type": "object", "properties": {}},
+                   {"type": "object", "properties": {"x": {"type": "number"}, "factor": {"type": "number"}}, "required": ["x"]}]
+        exprs = ["scale(3, factor=2, offset=1 + 1)", "scale(3, 2, 1)", "scale(x=3, offset=4)", "strict(3, factor=2, offset=5)",
+                 "strict(3, 2)", "scale(3, factor=2, **{'offset': 1})", "scale(3, offset=abs(-2), factor=max(1, 2))"]
+        for sch in schemas:
+            for e in exprs:
+                for pw in (None, "tool"):
+                    m = Mitochondria(silent=True)
+                    kw = {} if sch is None else {"parameters_schema": sch}
+                    m.register_function("scale", scale, "scale", **kw)
+                    m.register_function("strict", strict, "strict", **kw)
+                    del seen[:]
+                    from operon_ai.organelles.mitochondria import MetabolicPathway
+                    try:
+                        r = m.metabolize(e, {p.value: p for p in MetabolicPathway}[pw] if pw else None)
+                    except BaseException as ex:  # noqa
+                        self.violations.append(Violation("C02/raises", f"metabolize({e!r}) raised {type(ex).__name__}",
+                                                         case={"expr": e, "pathway": pw, "tool_probe": True, "schema": sch}))
+                        continue
+                    n += 1
+                    try:
+                        ref = ("ok", eval(e, {"__builtins__": {}}, {"scale": lambda *a, **k: scale(*a, **k) if False else
+                                                                    (a[0] if a else k["x"]) * k.get("factor", a[1] if len(a) > 1 else 1)
+                                                                    + k.get("offset", a[2] if len(a) > 2 else 0),
+                                                                    "strict": lambda x, factor=1: x * factor,
+                                                                    "abs": abs, "max": max}))
+                    except Exception as ex:  # noqa
+                        ref = ("raises", type(ex).__name__)
+                    if "**" in e:
+                        continue        # ** unpacking in tool calls is skipped by design of the pathway: not demanded
+                    if r.success and ref[0] == "raises":
+                        self.violations.append(Violation(
+                            "C02/success-where-python-raises",
+                            f"tool call {e!r} succeeded with {r.atp.value!r} but Python raises {ref[1]} (an argument was dropped?)",
+                            case={"expr": e, "pathway": pw, "tool_probe": True, "schema": sch}))
+                    elif r.success and ref[0] == "ok" and not py_equal(r.atp.value, ref[1]):
+                        self.violations.append(Violation(
+                            "C02/value-differs", f"tool call {e!r} returned {r.atp.value!r}, Python gives {ref[1]!r} "
+                            f"(arguments received by the tool: {seen[-1:]})",
+                            case={"expr": e, "pathway": pw, "tool_probe": True, "schema": sch}))
+        self.extra_cov["tool_argument_probes"] = n
 
     def classify(self, case, obs, trace):
         ks = C01.classify(self, case, obs, trace)
